@@ -40,6 +40,11 @@ def _wlist(lst):
     return out
 
 
+def _canon(txt):
+    """Canonical text of a JSON document (member order and whitespace normalised; NaN stays NaN)."""
+    return json.dumps(json.loads(txt), sort_keys=True)
+
+
 def _names(lst):
     return [w.get("qualified_name", "?") for w in lst]
 
@@ -232,6 +237,7 @@ class ModelSlot:
         self.gen = 0              # restore generation
         self.origin_doc = None    # document it was restored from
         self.origin_text = None   # its text (restored objects)
+        self.canon = False        # restored from a member-order-normalised form of the document
         self.pristine_cache = {}
         self.lineage = None
         self.n_predicts = 0
@@ -296,7 +302,7 @@ class Worker:
         ctl = seams.native_clock()
         if ctl is not None:
             self.probe("native_clock_reads", int(ctl[0]))
-            if ctl[3] != 0:
+            if ctl[3] != getattr(self, "_date_shift_us", 0):
                 self.probe("native_clock_jump_applied")
         for ms in list(self.models):
             self._drop_model(ms)
@@ -531,6 +537,17 @@ class Worker:
         elif how == "stall":
             self.clock.stalled = int(a["x"])
             self.clock_state = "stalled"
+        elif how == "date":
+            # "today" moves by whole days / months / years between two operations: the realtime clock native readers
+            # see (datetime.now, Timestamp.now, numpy "now", time()) and the Python-level wall clock move together
+            ctl = seams.native_clock()
+            self.clock.wall0 = getattr(self.clock, "wall0", 0.0) + float(a["x"])
+            if ctl is None:
+                return {"class": "done", "why": "native clock shim not loaded: Python-level wall clock only"}
+            ctl[3] = ctl[3] + int(float(a["x"]) * 1_000_000)
+            self._date_shift_us = getattr(self, "_date_shift_us", 0) + int(float(a["x"]) * 1_000_000)
+            self.clock_state = "date-moved"
+            self.probe("date_moved")
         elif how == "native_jump":
             # the clock native code reads (NLopt: gettimeofday) jumps by x seconds after n more reads
             ctl = seams.native_clock()
@@ -1286,7 +1303,7 @@ class Worker:
                 out["fit_diff_paths"] = D.top_diff(json.loads(slot.fit_doc), json.loads(txt))
         if slot.origin_doc is not None and slot.origin_doc in store:
             orig = store[slot.origin_doc]["text"]
-            same = txt == orig
+            same = (_canon(txt) == _canon(orig)) if slot.canon else (txt == orig)
             out["same_as_origin"] = same
             if not same:
                 try:
@@ -1356,10 +1373,17 @@ class Worker:
             elif form == "json_dict_json":
                 t2 = json.dumps(json.loads(txt))
                 obj = self._call(lambda: cls.from_json(t2))
+            elif form == "json_sorted":
+                # the document comes back from a store that normalises JSON (sorted keys, other whitespace — what a
+                # JSONB column or a canonicalising serialiser does): the same document, another member order
+                t2 = json.dumps(json.loads(txt), sort_keys=True, indent=1)
+                obj = self._call(lambda: cls.from_json(t2))
             else:
                 d = entry.get("obj")
-                if d is None:
+                if d is None or form == "dict_sorted":
                     d = json.loads(txt)
+                if form == "dict_sorted":
+                    d = json.loads(json.dumps(d, sort_keys=True))
                 before = json.dumps(d, sort_keys=True, default=str)
                 obj = self._call(lambda: cls.from_dict(d))
                 if form == "dict_twice":
@@ -1382,6 +1406,7 @@ class Worker:
         slot.gen = entry["gen"] + 1
         slot.origin_doc = a["doc"]
         slot.origin_text = txt
+        slot.canon = form in ("json_sorted", "dict_sorted")
         slot.lineage = entry.get("lineage")
         gate = self._gate_attrs(obj)
         out["gate"] = gate
@@ -1390,8 +1415,9 @@ class Worker:
         dg, retxt, mode = self.model_state(obj)
         out["restore_mode"] = mode
         if retxt is not None:
-            out["redoc_same"] = retxt == txt
-            if retxt != txt:
+            # a document that came back in another member order is the same document: compared in canonical form
+            out["redoc_same"] = (_canon(retxt) == _canon(txt)) if slot.canon else (retxt == txt)
+            if not out["redoc_same"]:
                 try:
                     out["redoc_diff_paths"] = D.top_diff(json.loads(txt), json.loads(retxt))
                 except Exception:  # noqa: BLE001
